@@ -69,4 +69,34 @@ theorem le_of_mul_self_le {x y : K} (hy : 0 ≤ y) (h : x * x ≤ y * y) : x ≤
   push Not at hc
   nlinarith
 
+/-- one coordinate of `Aabb::do_project_local_point`: the shift `max(lo-x,0) - max(x-hi,0)` clamps `x` into `[lo,hi]` -/
+theorem clamp_shift (lo hi x : K) (h : lo ≤ hi) :
+    (max (lo - x) 0 - max (x - hi) 0 = 0 ↔ lo ≤ x ∧ x ≤ hi) ∧
+    lo ≤ x + (max (lo - x) 0 - max (x - hi) 0) ∧ x + (max (lo - x) 0 - max (x - hi) 0) ≤ hi ∧
+    (∀ y, lo ≤ y → y ≤ hi → (x - (x + (max (lo - x) 0 - max (x - hi) 0))) * (y - (x + (max (lo - x) 0 - max (x - hi) 0))) ≤ 0) := by
+  rcases lt_or_ge x lo with h1 | h1
+  · have e1 : max (lo - x) 0 = lo - x := max_eq_left (by linarith)
+    have e2 : max (x - hi) 0 = 0 := max_eq_right (by linarith)
+    rw [e1, e2]
+    refine ⟨⟨fun h' => by exfalso; linarith, fun h' => by exfalso; linarith [h'.1]⟩, by linarith, by linarith, ?_⟩
+    intro y hy1 hy2
+    nlinarith [mul_nonneg (sub_nonneg.2 h1.le) (sub_nonneg.2 hy1)]
+  · rcases lt_or_ge hi x with h2 | h2
+    · have e1 : max (lo - x) 0 = 0 := max_eq_right (by linarith)
+      have e2 : max (x - hi) 0 = x - hi := max_eq_left (by linarith)
+      rw [e1, e2]
+      refine ⟨⟨fun h' => by exfalso; linarith, fun h' => by exfalso; linarith [h'.2]⟩, by linarith, by linarith, ?_⟩
+      intro y hy1 hy2
+      nlinarith [mul_nonneg (sub_nonneg.2 h2.le) (sub_nonneg.2 hy2)]
+    · have e1 : max (lo - x) 0 = 0 := max_eq_right (by linarith)
+      have e2 : max (x - hi) 0 = 0 := max_eq_right (by linarith)
+      rw [e1, e2]
+      refine ⟨⟨fun _ => ⟨h1, h2⟩, fun _ => by ring⟩, by linarith, by linarith, ?_⟩
+      intro y _ _
+      simp
+
+theorem neq_zero_iff (sq : K → K) (a : K) : @neq K (fieldNum K sq) a 0 = true ↔ a = 0 := by
+  simp only [neq, Bool.and_eq_true, decide_eq_true_eq]
+  exact ⟨fun ⟨h1, h2⟩ => le_antisymm h1 h2, fun h => by subst h; exact ⟨le_refl _, le_refl _⟩⟩
+
 end C05
